@@ -6,7 +6,8 @@ answer of the real `CDDLType::parent` at every node. The extracted Coq model (Pa
 labelled tree. Checked per node:
   1. implementation == model, exactly (ties the model to the code; any difference is a VIOLATION);
   2. implementation == label of the TRUE syntactic parent; a difference is a KNOWN-FINDING only when the narrow
-     classifier of an open finding holds at that node, otherwise a VIOLATION;
+     classifier of the open finding (equal nodes share the first registered parent) holds at that node, otherwise a
+     VIOLATION; in particular a reachable node for which the query returns None (node never indexed) is a VIOLATION;
   3. root has no parent, every answer is a walked node, == is an equivalence, typed Parent queries agree.
 """
 import json, os, random, time
@@ -20,7 +21,11 @@ PREAMBLE = ("From Coq Require Import List NArith. Import ListNotations.\n"
             "From Cddl Require Import Parent.Tree Parent.Arena.\nOpen Scope N_scope.")
 
 KF_COLLISION = "kf-c20-equal-nodes-share-first-parent"
-KF_UNWRAP = "kf-c20-unwrap-generic-args-not-indexed"
+# The model variant is fixed: the Type2::Unwrap arm registers its generic arguments (/repo commit 2a3eb9a).
+# The pre-repair behaviour (Arena.v, fx = false) is never selected by the check: if it comes back it is a VIOLATION.
+FX = 1
+# witnesses of FIXED findings: run first, must be entirely correct (no known-finding classifier applies to them)
+FIXED_CORPUS = ["a = ~b<int>", "a = ~b<int, tstr>", "a = [~b<1>, ~c<2>]", "a = ~b<c<d>>"]   # all nodes pairwise distinct
 
 KIND_NAMES = {0: "CDDL", 1: "Rule", 2: "TypeRule", 3: "GroupRule", 4: "Group", 5: "GroupChoice", 6: "GenericParams",
               7: "GenericParam", 8: "GenericArgs", 9: "GenericArg", 10: "GroupEntry", 11: "Identifier", 12: "Type",
@@ -359,15 +364,6 @@ def coq_term(tok):
     return "[" + "; ".join(x for t in tok.split(" ") for x in t.split(".")) + "]%N"
 
 
-def under_unwrap_args(i, nodes, parent, child_idx):
-    """node i lies in the subtree of a child with index >= 1 of a Type2::Unwrap node"""
-    while parent[i] is not None:
-        if nodes[parent[i]][0] == K_UNWRAP and child_idx[i] >= 1:
-            return True
-        i = parent[i]
-    return False
-
-
 def evaluate(text, impl_line, model_line_for, fx):
     """Returns (violations [(what, extra)], known {finding id: example}, stats dict). model_line_for(tok) -> model output."""
     ev = {"viol": [], "known": {}, "stats": {}}
@@ -424,13 +420,11 @@ def evaluate(text, impl_line, model_line_for, fx):
         wrong_kinds[KIND_NAMES.get(kind, str(kind))] = wrong_kinds.get(KIND_NAMES.get(kind, str(kind)), 0) + 1
         # --- classification of a wrong answer -------------------------------------------------------------
         if ans[i] == "-":
-            # not indexed: only the known class "below the generic arguments of ~name<..>, no equal node registered"
-            if (under_unwrap_args(i, nodes, parent, child_idx) and mfirst[i] == "-" and fx == 0):
-                unindexed += 1
-                ev["known"].setdefault(KF_UNWRAP, {"node": path_s[i], "kind": KIND_NAMES.get(kind, kind)})
-            else:
-                ev["viol"].append(("node %s (%s) is reachable from the root but the parent query returns None (never registered)"
-                                   % (path_s[i], KIND_NAMES.get(kind, kind)), {"node": i}))
+            # a reachable node that is not indexed: always a violation (unreachable while impl == model holds, by
+            # C20_visit_spec; kept as an independent check of the property text)
+            unindexed += 1
+            ev["viol"].append(("node %s (%s) is reachable from the root but the parent query returns None (never registered)"
+                               % (path_s[i], KIND_NAMES.get(kind, kind)), {"node": i}))
             continue
         m = idx_of_path.get(mfirst[i])
         if (m is not None and m != i and labels[m] == labels[i] and parent[m] is not None
@@ -444,19 +438,6 @@ def evaluate(text, impl_line, model_line_for, fx):
               nodup=len(set(labels)) == n, kinds=[x[0] for x in nodes], has_unwrap_args=any(
                   nodes[i][0] == K_UNWRAP and nodes[i][2] >= 2 for i in range(n)), model_line=model_line)
     return ev
-
-
-def detect_fx(drv, orc):
-    """which variant of Type2::Unwrap does the working tree implement? replay `a = ~b<int>` against both models"""
-    line = common.run_tool(drv, ["P\t" + "a = ~b<int>".encode().hex()])[0]
-    if not line.startswith("OK\t"):
-        return 0, line
-    tok, ans = line.split("\t")[1], line.split("\t")[2]
-    for fx in (0, 1):
-        m = common.run_tool(orc, ["T\t%d\t%s" % (fx, tok)])[0]
-        if " ".join(x.split("@")[0] for x in m.split(" ")) == ans:
-            return fx, line
-    return 0, line
 
 
 def run(tier, seed):
@@ -477,7 +458,7 @@ def run(tier, seed):
     if not proved:
         n_random *= 3
     kfs = findings()
-    fx, _ = detect_fx(drv, orc)
+    fx = FX
 
     def run_batch(texts):
         impl = common.run_tool(drv, ["P\t" + t.encode().hex() for t in texts])
@@ -499,6 +480,17 @@ def run(tier, seed):
         for what, extra in ev["viol"]:
             res.violation("witness %r: %s" % (text, what), dict(extra, cmd="P", text=text, fx=fx))
 
+    # --- 1b. witnesses of fixed findings: every answer must be the true parent ---------------------------------
+    impl_f, cache_f = run_batch(FIXED_CORPUS)
+    for text, line in zip(FIXED_CORPUS, impl_f):
+        ev = evaluate(text, line, lambda tok: cache_f[tok], fx)
+        for what, extra in ev["viol"]:
+            res.violation("fixed-finding witness %r: %s" % (text, what), dict(extra, cmd="P", text=text, fx=fx))
+        if ev["stats"].get("status") != "ok":
+            res.violation("fixed-finding witness %r is no longer accepted: %s" % (text, line[:100]), {"cmd": "P", "text": text, "fx": fx})
+        elif ev["stats"].get("wrong", 0) != 0 and not ev["viol"]:
+            res.violation("fixed-finding witness %r: %d parent answers differ from the true parent" % (text, ev["stats"]["wrong"]),
+                          {"cmd": "P", "text": text, "fx": fx})
     phase("witness replays")
     # --- 2. generated documents -----------------------------------------------------------------------------------
     docs = gen_docs(rng, n_random)
@@ -624,9 +616,7 @@ def replay(path):
     if "text" not in r:
         print("no input recorded:", r)
         return 0
-    fx = r.get("fx")
-    if fx is None:
-        fx, _ = detect_fx(drv, orc)
+    fx = FX
     line = common.run_tool(drv, ["P\t" + r["text"].encode().hex()])[0]
     print("text  :", repr(r["text"]))
     print("impl  :", line)
